@@ -17,6 +17,9 @@ class VroomMon(Monitor):
         self.led = {}
         self.calls = []
         self.orig = None
+        self.before = None
+        self.exp = None
+        self.drawn = None
 
     def start(self, ctx):
         c = ctx.case
@@ -28,6 +31,12 @@ class VroomMon(Monitor):
         self.Cn = math.fsum(1.0 / (h * l) for h in range(1, self.sd + 1) for l in range(1, 2 ** h + 1))
         self.part = ctx.algo.partition
         self.lcb_w = math.log(4 * self.n ** 3 / self.delta)
+        self.buckets = {}
+        for h in range(1, self.sd + 1):
+            self.buckets["h%02d" % h] = math.fsum(1.0 / (h * l * self.Cn) for l in range(1, 2 ** h + 1))
+            for l in range(1, 2 ** h + 1):
+                k = "r%02d" % l.bit_length()
+                self.buckets[k] = self.buckets.get(k, 0.0) + 1.0 / (h * l * self.Cn)
 
     def _install(self):
         if self.orig is not None:
@@ -49,6 +58,7 @@ class VroomMon(Monitor):
 
     def before_pull(self, ctx, t):
         self.calls.clear()
+        self.inj0 = getattr(getattr(ctx, "inj", None), "n_inj", 0)
         self._install()
 
     def lcb(self, x):
@@ -61,21 +71,15 @@ class VroomMon(Monitor):
         self._remove()
         nl = self.part.get_node_list()
         self.drawn = None
+        self.exp = None
+        self.pt = pt
         self.obs["vroom_pulls_checked"] += 1
-        if len(self.calls) != 1:
-            # the draw was not made through np.random.choice (or several were): the distribution cannot be observed;
-            # not a violation - the oracle floor on compared probabilities then makes the check inconclusive
-            self.obs["pulls_without_an_observable_categorical_draw"] += 1
-            return
-        aa, p, s = self.calls[0]
-        idx = [(h, l) for h in range(1, self.sd + 1) for l in range(len(nl[h]))]
-        if aa != list(range(len(idx))) and aa != len(idx):
-            self.v("C13:support_is_not_the_cells_of_the_ranking_depths", support=len(aa) if isinstance(aa, list) else aa,
-                   cells=len(idx))
-            return
+        self.before = {id(x): len(x.reward) for x in C.reachable(self.part)}
+        idx = [(h, l) for h in range(1, self.sd + 1) for l in range(len(nl[h]) if h < len(nl) else 0)]
         exp = []
+        rk = {}
         for h in range(1, self.sd + 1):
-            layer = nl[h]
+            layer = nl[h] if h < len(nl) else []
             ranks = [x.get_rank()[-1] if x.get_rank() else None for x in layer]
             if sorted(r for r in ranks if r is not None) != list(range(1, 2 ** h + 1)) or len(layer) != 2 ** h:
                 self.v("C13:ranks_are_not_a_permutation", depth=h, cells=len(layer))
@@ -88,6 +92,24 @@ class VroomMon(Monitor):
                     self.v("C13:rank_not_non_increasing_in_lower_confidence_value", depth=h, better=b_, worse=a_)
                     return
             exp += [1.0 / (h * r * self.Cn) for r in ranks]
+            for x, r in zip(layer, ranks):
+                rk[id(x)] = (h, r)
+        # a pull during which the harness replaced an outcome of np.random.uniform by an end point is not a sample of
+        # the algorithm's distribution any more (the sampler may be built on uniform()); the decision to inject is
+        # independent of the real draw, so leaving those pulls out does not bias the pooled frequencies
+        self.injected = getattr(getattr(ctx, "inj", None), "n_inj", 0) != self.inj0
+        self.exp = rk  # cell -> (depth, rank) at the moment of the draw: what the pooled frequency monitor needs
+        if len(self.calls) != 1:
+            # the draw was not made through np.random.choice (or several were): its arguments cannot be observed.
+            # The drawn cell is then taken from the credit (the shallowest cell credited in this round) and only the
+            # pooled frequency monitor judges the distribution.
+            self.obs["pulls_without_an_observable_categorical_draw"] += 1
+            return
+        aa, p, s = self.calls[0]
+        if aa != list(range(len(idx))) and aa != len(idx):
+            self.v("C13:support_is_not_the_cells_of_the_ranking_depths", support=len(aa) if isinstance(aa, list) else aa,
+                   cells=len(idx))
+            return
         if p is None or len(p) != len(exp) or any(abs(x - y) > 1e-12 for x, y in zip(p, exp)):
             bad = None if p is None or len(p) != len(exp) else max(range(len(p)), key=lambda i: abs(p[i] - exp[i]))
             self.v("C13:probability_is_not_one_over_h_r_C", at=bad, p=None if bad is None else p[bad],
@@ -98,21 +120,52 @@ class VroomMon(Monitor):
             self.v("C13:probabilities_do_not_sum_to_one", total=math.fsum(p))
         h, l = idx[int(s)]
         self.drawn = nl[h][l]
-        self.pt = pt
         why = C.inbox_problem(pt, self.drawn.get_domain())
         if why:
             self.v("C13:point_outside_the_drawn_cell", why=why, depth=h)
-        self.before = {id(x): len(x.reward) for x in C.reachable(self.part)}
+
+    def pool(self, cell):
+        """pooled frequency monitor: the drawn cell's (depth, rank) is counted in its depth bucket and in its rank
+        bucket (1, 2, 3-4, 5-8, ...); each bucket's probability under the published distribution is a constant of n
+        (ranks are a permutation), so hits - sum p is a martingale with variance sum p(1-p)"""
+        hr = self.exp.get(id(cell)) if self.exp else None
+        if hr is None:
+            return False
+        if self.injected:
+            self.obs["draws_left_out_of_the_pool_because_an_rng_outcome_was_injected"] += 1
+            return False
+        h, r = hr
+        self.obs["draws_pooled_for_the_frequency_test"] += 1
+        self.obs["~hit|h%02d" % h] += 1
+        self.obs["~hit|r%02d" % int(r).bit_length()] += 1
+        for key, pb in self.buckets.items():
+            self.obs["~p|" + key] += pb
+            self.obs["~v|" + key] += pb * (1 - pb)
+        return True
 
     def on_reward(self, ctx, t, r):
-        if self.drawn is None:
+        if self.before is None:
             return
         nodes = C.reachable(self.part)
         before, self.before = self.before, None
         grew = [x for x in nodes if len(x.reward) != before.get(id(x), 0)]
+        grew.sort(key=lambda x: x.get_depth())
+        if self.drawn is None:
+            if self.exp is None or not grew or len(self.calls) == 1:
+                return
+            # no observable categorical draw: the shallowest credited cell is the drawn one
+            self.drawn = grew[0]
+            if not 1 <= self.drawn.get_depth() <= self.sd:
+                self.v("C13:support_is_not_the_cells_of_the_ranking_depths", drawn_depth=self.drawn.get_depth(),
+                       ranking_depths=self.sd)
+                self.drawn = None
+                return
+            why = C.inbox_problem(self.pt, self.drawn.get_domain())
+            if why:
+                self.v("C13:point_outside_the_drawn_cell", why=why, depth=self.drawn.get_depth())
+        self.pool(self.drawn)
         self.obs["vroom_chains_checked"] += 1
         # credited set = a parent->child chain that starts at the drawn cell and goes down to the depth cap
-        grew.sort(key=lambda x: x.get_depth())
         ok = bool(grew) and grew[0] is self.drawn
         for a_, b_ in zip(grew, grew[1:]):
             if b_.get_parent() is not a_ or not any(b_ is k for k in (a_.get_children() or [])):
